@@ -167,6 +167,33 @@ class RepoModule:
                 "sha256": hashlib.sha256(seg.encode()).hexdigest()}
 
 
+def mutated_in_place(stmts):
+    """Names whose container is changed in place somewhere in the statements (element / slice store, del d[k],
+    mutating method call, augmented assignment to an element)."""
+    MUT = {"append", "pop", "add", "remove", "extend", "update", "setdefault", "insert", "clear", "discard", "sort", "popitem", "reverse"}
+    out = set()
+
+    def base_name(t):
+        while isinstance(t, (ast.Subscript, ast.Attribute)):
+            t = t.value
+        return t.id if isinstance(t, ast.Name) else None
+    for st in stmts:
+        for n in ast.walk(st):
+            if isinstance(n, ast.Subscript) and isinstance(n.ctx, (ast.Store, ast.Del)):
+                b = base_name(n)
+                if b:
+                    out.add(b)
+            elif isinstance(n, ast.AugAssign) and not isinstance(n.target, ast.Name):
+                b = base_name(n.target)
+                if b:
+                    out.add(b)
+            elif isinstance(n, ast.Call) and isinstance(n.func, ast.Attribute) and n.func.attr in MUT:
+                b = base_name(n.func.value)
+                if b:
+                    out.add(b)
+    return out
+
+
 def assigned_names(stmts):
     """Names (re)bound or mutated inside a statement list; value: 'rebind' or 'elem'."""
     out = {}
@@ -264,7 +291,8 @@ class Exec:
         if not self.checking:
             return
         exc = self.TOLERABLE.get(kind)
-        if exc and exc in getattr(self.contract, "may_raise", []) and not self.binders:
+        declared = list(getattr(self.contract, "may_raise", [])) + [r["exc"] for r in getattr(self.contract, "raises", [])]
+        if exc and exc in declared and not self.binders:
             # the contract allows this exception: not an obligation but an exceptional path
             if goal is True:
                 return
@@ -317,6 +345,8 @@ class Exec:
             if isinstance(f, tuple):
                 continue
             st.assume(f)
+        st.ghost["__param_objs__"] = frozenset(p for p in params if isinstance(st.locals.get(p), (DictV, SetV))
+                                               or (isinstance(st.locals.get(p), Seq) and st.locals[p].kind != "tuple"))
         if c.setup:
             c.setup(self, st)
         # logical (auxiliary) variables: arbitrary values the contract quantifies over universally
@@ -382,6 +412,11 @@ class Exec:
                 self.oblige(s, goal, "raises-only-when[%s]" % s.value, s.ghost.get("__raise_node__", node))
             return
         # normal return
+        for name in sorted(s.ghost.get("__mutated_params__", ())):
+            if name not in c.modifies:
+                self.oblige(s, False, "frame[%s]" % name, s.ghost.get("__return_node__", node),
+                            "the function changes the container it received as %r in place, but its contract has no modifies(%r): "
+                            "callers assume it unchanged" % (name, name))
         for r in c.raises:
             w = self.eval_contract(r["when"], self.pre_state_with(s), {})
             self.oblige(s, znot(w) if not isinstance(w, bool) else (not w), "must-raise[%s]" % r["exc"], s.ghost.get("__return_node__", node))
@@ -535,6 +570,8 @@ class Exec:
                 if isinstance(base, DictV):
                     self.oblige(st, base.dom(key), "key-present", t)
                     self.assign(t.value, self.dict_delete(base, key), st)
+                    if isinstance(t.value, ast.Name):
+                        self.note_mutation(t.value.id, st)
                 elif isinstance(base, Seq) and isinstance(key, int) and key == 0:
                     self.oblige(st, self.cmp_ge(base.n, 1), "index-in-range", t)
                     self.assign(t.value, Seq(base.n - 1, lambda i, b=base: b.at(i + 1), base.kind), st)
@@ -591,6 +628,10 @@ class Exec:
 
     def stmt_Assign(self, node, st):
         v = self.eval(node.value, st)
+        for t in node.targets:
+            for n in ([t] if isinstance(t, ast.Name) else [e for e in ast.walk(t) if isinstance(t, (ast.Tuple, ast.List)) and isinstance(e, ast.Name)]):
+                if isinstance(n.ctx, ast.Store):
+                    self.rebind(n.id, st)
         if len(node.targets) == 1 and isinstance(node.targets[0], ast.Name):
             v = self.name_seq(st, v, node.targets[0].id)
         for t in node.targets:
@@ -695,6 +736,9 @@ class Exec:
 
     def stmt_For(self, node, st):
         ordinal = self.ordinal_of(node)
+        for n in ast.walk(node.target):
+            if isinstance(n, ast.Name):
+                self.rebind(n.id, st)
         it = self.eval(node.iter, st)
         seq = self.as_seq(it, st, node.iter)
         spec = self.contract.loops.get(ordinal)
@@ -743,6 +787,9 @@ class Exec:
         inv = spec["invariant"]            # ast.Lambda
         itname = inv.args.args[0].arg if inv.args.args else None
         mod = assigned_names(node.body)
+        # frame: a parameter's container changed in place inside the loop is changed for the caller
+        for name in sorted(mutated_in_place(node.body)):
+            self.note_mutation(name, st)
         if seq is not None:
             for n in ast.walk(node.target):
                 if isinstance(n, ast.Name):
@@ -915,7 +962,16 @@ class Exec:
         return [st]
 
     # ------------------------------------------------------------------ assignment
+    def rebind(self, name, st):
+        """The variable is bound to a new object: it no longer names the caller's container."""
+        objs = st.ghost.get("__param_objs__")
+        if objs and name in objs:
+            st.ghost["__param_objs__"] = objs - {name}
+
     def note_mutation(self, name, st):
+        # frame: an in-place change of a container received as a parameter must be declared in `modifies`
+        if name in st.ghost.get("__param_objs__", ()):
+            st.ghost["__mutated_params__"] = st.ghost.get("__mutated_params__", frozenset()) | {name}
         for a in st.aliases:
             if name in a and len(a) > 1:
                 raise EngineError("%s: mutation of %r while aliased by %s is outside the subset" % (self.fnname, name, sorted(a - {name})))
